@@ -3,19 +3,24 @@
 import collections, glob, json, os, re
 V = os.path.dirname(os.path.dirname(os.path.abspath(__file__)))
 rows = collections.defaultdict(list)
-for line in open(os.path.join(V, "seeded", "MATRIX.tsv")):
-    p = line.rstrip("\n").split("\t")
-    if len(p) >= 4:
-        rows[p[0]].append((p[1], p[2], p[3]))
+for fn in ("MATRIX.tsv", "MATRIX.r2.tsv"):
+    f = os.path.join(V, "seeded", fn)
+    if not os.path.exists(f):
+        continue
+    for line in open(f):
+        p = line.rstrip("\n").split("\t")
+        if len(p) >= 4:
+            rows[p[0]].append((p[1], p[2], p[3]))
 out = ["# Seeded changes and the checks that catch them", "",
        "Each directory holds one behaviour-breaking change to PermutaTriangle/comb_spec_searcher written by an independent sub-agent that was",
        "given only the text of a property and a scratch worktree (nothing from /verif). Every change was re-confirmed in a private scratch",
        "worktree (`tools/ingest_mutant.sh`): the demo passes on the pinned tree; with the patch the 45 tests pass and the demo fails.",
+       "Directories `<prop>-r2mN` are a second round written against the repaired tree (base commit in meta.json; `MATRIX.r2.tsv`).",
        "`MATRIX.tsv` is produced by `tools/mutant_matrix.sh`: the patch (`patch.rebased.diff` where a later fix: commit touched the same",
        "lines) is applied to /repo, the *quick* check is run, the patch is reverted. exit=1 means VIOLATION with a natively replayed input.", "",
        "| change | what it is (first line of the author's notes) | own quick check | other quick checks tried |", "|---|---|---|---|"]
 caught = missed = 0
-for d in sorted(glob.glob(os.path.join(V, "seeded", "C*-m*"))):
+for d in sorted(glob.glob(os.path.join(V, "seeded", "C*-m*")) + glob.glob(os.path.join(V, "seeded", "C*-r2m*"))):
     m = os.path.basename(d)
     pid = m.split("-")[0]
     notes = ""
